@@ -112,6 +112,7 @@ type World struct {
 	InitialHeaders []string       // sids (or "?") for which initial_headers fired
 	HeadersEv      int
 	hdrHook        func(name string, h map[string][]string, req *types.HttpContext)
+	MsgHook        func(sr *SessRec, p Pkt) // called (under w.mu) for every message event
 }
 
 func (w *World) Failf(format string, a ...any) {
@@ -186,6 +187,9 @@ func (w *World) attachServerListeners() {
 				case "message":
 					ev.Msg = bufToPkt(first(a))
 					sr.Msgs = append(sr.Msgs, *ev.Msg)
+					if w.MsgHook != nil {
+						w.MsgHook(sr, *ev.Msg)
+					}
 				case "data":
 					ev.Msg = bufToPkt(first(a))
 					sr.Datas = append(sr.Datas, *ev.Msg)
